@@ -257,6 +257,18 @@ def build(repo=None):
             def mk(clsname):
                 def f(e, s, cls, args, kwargs, node):
                     s1 = s.clone()
+                    # arguments in the order of the constructor's own parameters, whether they were passed by position or by keyword
+                    args, kwargs = list(args), dict(kwargs)
+                    try:
+                        init = mod.func(clsname + ".__init__")
+                        params = [a.arg for a in init.args.args[1:]]
+                    except Exception:
+                        params = []
+                    for p_ in params[len(args):]:
+                        if p_ in kwargs:
+                            args.append(kwargs.pop(p_))
+                        else:
+                            break
                     return [(s1, s1.alloc(Obj(clsname, {"args": Tup(args), "kwargs": Tup(list(kwargs.values()))}, tag=clsname)))]
                 return f
 
